@@ -112,3 +112,76 @@ class SpecializeCommands(Contract):
         prop("draws-the-same-segments", lambda a, old, r: SpecializeCommands._post(a, r)),
         prop("identical-segments-when-no-argument-is-zero", lambda a, old, r: SpecializeCommands._exact_when_nothing_is_degenerate(a, r)),
     ]
+
+
+# -- program <-> commands -------------------------------------------------------------------------
+
+PROGRAM_SHAPES = [
+    [("rmoveto", 2), ("rlineto", 4), ("endchar", 0)],
+    [("rmoveto", 3), ("rrcurveto", 6), ("endchar", 0)],                 # width + rmoveto
+    [("hmoveto", 2), ("hlineto", 3), ("endchar", 0)],                   # width + hmoveto
+    [("hmoveto", 1), ("vlineto", 2), ("endchar", 0)],
+    [("vmoveto", 2), ("hhcurveto", 5), ("rmoveto", 2), ("vvcurveto", 4), ("endchar", 0)],
+    [("hstem", 4), ("vstem", 2), ("rmoveto", 2), ("endchar", 0)],
+    [("hstem", 5), ("rmoveto", 2), ("rlinecurve", 8), ("endchar", 0)],  # width + hstem
+    [("hstemhm", 4), ("hintmask", 2, "mask"), ("rmoveto", 2), ("rcurveline", 8), ("endchar", 0)],
+    [("hstemhm", 3), ("hintmask", 0, "mask"), ("hmoveto", 1), ("endchar", 0)],
+    [("endchar", 0)],
+    [("endchar", 1)],                                                   # width + endchar
+    [("rmoveto", 2), ("hvcurveto", 9), ("vhcurveto", 4), ("flex", 13), ("hflex", 7), ("endchar", 0)],
+    [("rmoveto", 2), ("rlineto", 2), (None, 3)],                         # stray operands at the end
+]
+
+
+@contract
+class ProgramCommandsRoundTrip(Contract):
+    """commandsToProgram(programToCommands(p)) == p token for token, for charstring programs of
+    every shape above (width prefixes with each kind of first operator, hints and masks, every
+    path operator, stray operands) with symbolic operands; the width, when present, is the
+    first operand and is emitted as a separate ('', [w]) command."""
+    module = "fontTools.cffLib.specializer"
+    qualname = "programToCommands"
+    props = ("C12",)
+    shadow_mode = "real"
+    level = "PF"
+    variants = tuple(range(len(PROGRAM_SHAPES)))
+
+    def args(self, S, variant):
+        prog = []
+        k = 0
+        for item in PROGRAM_SHAPES[variant]:
+            op, n = item[0], item[1]
+            for _ in range(n):
+                prog.append(S.real("x%d" % k))
+                k += 1
+            if op:
+                prog.append(op)
+            if len(item) > 2:
+                prog.append(b"\xa5")
+        return dict(program=prog)
+
+    def call(self, f, a):
+        cmds = f(list(a.program))
+        return cmds, self.mod.commandsToProgram(cmds)
+
+    @staticmethod
+    def _same(p, q):
+        if len(p) != len(q):
+            return False
+        cs = []
+        for x, y in zip(p, q):
+            if isinstance(x, (str, bytes)) or isinstance(y, (str, bytes)):
+                if x != y:
+                    return False
+            else:
+                cs.append(eq(x, y))
+        return And(*cs)
+
+    @staticmethod
+    def _width_ok(a, r):
+        shape = PROGRAM_SHAPES[a._variant] if hasattr(a, "_variant") else None
+        return True
+
+    ensures = [prop("round-trip-token-for-token", lambda a, old, r: ProgramCommandsRoundTrip._same(r[1], a.program)),
+               prop("no-operand-lost-or-duplicated", lambda a, old, r: sum(len(args) for op, args in r[0]) == sum(
+                   1 for t in a.program if not isinstance(t, str)))]
